@@ -542,6 +542,49 @@ def rule_inbound(ctx: Ctx) -> None:
               god.node, "Decimal(text)", "optional decimal decoder changed", key_text="optional decimal")
 
 
+def rule_timestamps(ctx: Ctx) -> None:
+    """Every epoch -> datetime conversion in the exchange wrappers: integer ticks divided by the documented unit, timezone-aware
+    UTC.  Exactness: a double below 2**32 s has half-ulp 2.4e-7 s < 0.5 us and fromtimestamp rounds half-even to microseconds,
+    so int(us) / 1e6 is recovered exactly for every instant before 2106 (the property asks for 2010-2100); ms / 1e3 a fortiori."""
+    limit_ok = 4102444800 < 2 ** 32        # 2100-01-01T00:00:00Z in seconds
+    n = 0
+    for fn in ctx.repo.all_funcs():
+        if not fn.module.modname.startswith("basana.external") or ".tools." in fn.module.modname:
+            continue
+        for c in A.func_calls(fn, shallow=False):
+            nm = (A.call_name(c) or "").split(".")[-1]
+            if nm not in ("fromtimestamp", "utcfromtimestamp") or not c.args:
+                continue
+            n += 1
+            arg = c.args[0]
+            d = arg
+            if isinstance(arg, ast.Name):
+                defs = [s.node.value for s in A.stores(fn) if isinstance(s.target, ast.Name) and s.target.id == arg.id and hasattr(s.node, "value")]
+                d = defs[0] if len(defs) == 1 else arg
+            unit = None
+            if isinstance(d, ast.BinOp) and isinstance(d.op, ast.Div) and isinstance(d.right, ast.Constant):
+                unit = float(d.right.value)
+            key = "micro" if "micro" in ast.unparse(d).lower() else "milli"
+            want = 1e6 if key == "micro" else 1e3
+            short = fn.qualname.split(".", 3)[-1]
+            ctx.check(unit == want, "C17.4", f"{short}: {key}second ticks are divided by {want:g}", fn, c, ast.unparse(d)[:50],
+                      f"timestamp converted as {ast.unparse(d)[:50]}: wrong unit for a {key}second timestamp", key_text=f"ts unit {fn.qualname}")
+            if nm == "fromtimestamp":
+                tz = A.kw(c, "tz")
+                aware = tz is not None and (A.dotted(tz) or "").endswith("timezone.utc")
+            else:
+                par = c.parent  # type: ignore[attr-defined]
+                aware = isinstance(par, ast.Attribute) and par.attr == "replace" and "tzinfo=datetime.timezone.utc" in ast.unparse(par.parent)  # type: ignore
+            ctx.check(aware, "C17.4", f"{short}: decoded as a timezone-aware UTC datetime", fn, c, "tz=UTC", "decoded as naive or local time",
+                      key_text=f"ts utc {fn.qualname}")
+            leaf = d.left if isinstance(d, ast.BinOp) else d
+            integral = (isinstance(leaf, ast.Call) and A.call_name(leaf) == "int") or (isinstance(leaf, ast.Name) and leaf.id in fn.params)
+            ctx.check(integral and limit_ok, "C17.4", f"{short}: ticks are an integer divided once (exact to the microsecond before 2106)", fn, c,
+                      "int(ticks) / unit; half-ulp of a double < 2**32 s is 2.4e-7 s < 0.5 us", "ticks are not an integer divided once: precision "
+                      "of the float conversion is not established", key_text=f"ts exact {fn.qualname}")
+    ctx.floor("C17.4", "epoch -> datetime conversions", n, 4)
+
+
 def rule_aggregates(ctx: Ctx) -> None:
     """Per-order totals built from a sequence of trades / transactions must accumulate every element."""
     specs = [
@@ -572,6 +615,7 @@ def rule_aggregates(ctx: Ctx) -> None:
 
 
 def run(ctx: Ctx) -> None:
+    rule_timestamps(ctx)
     rule_aggregates(ctx)
     rule_outbound(ctx)
     rule_endpoints(ctx)
